@@ -116,6 +116,12 @@ impl<E: Engine> RateEncoder<E> for LowRateEncoder<E> {
 // LowRateEncoder - PRIVATE
 
 impl<E: Engine> LowRateEncoder<E> {
+    /// Verification hook: the working space of this encoder.
+    #[cfg(feature = "verif-hooks")]
+    pub fn verif_work(&self) -> &EncoderWork {
+        &self.work
+    }
+
     fn reset_work(
         original_count: usize,
         recovery_count: usize,
@@ -283,6 +289,12 @@ impl<E: Engine> RateDecoder<E> for LowRateDecoder<E> {
 // LowRateDecoder - PRIVATE
 
 impl<E: Engine> LowRateDecoder<E> {
+    /// Verification hook: the working space of this decoder.
+    #[cfg(feature = "verif-hooks")]
+    pub fn verif_work(&self) -> &DecoderWork {
+        &self.work
+    }
+
     fn reset_work(
         original_count: usize,
         recovery_count: usize,
